@@ -232,6 +232,65 @@ def run(ctx, V):
                 fails.append((f"tile {tuple(tile.pos)}: pixel centre outside tile/latitude range (margin {m:.3g}, excess {exc:.3g})",
                               dict(route="pixel-inside", planet=planet, pos=list(tile.pos))))
 
+    # ---- E3. the grids the layer sampler hands to a sampling callback (sampling "a layer directly"):
+    #          the level-0 tile (no Tile object: ToastSampler builds its grid itself) and the leaves of
+    #          sub-pyramids, in both systems, must be the same global pixelisation
+    import contextlib
+    import io as _io
+    import shutil
+    from toasty.pyramid import PyramidIO, Pyramid
+    n_route = 0
+    if not slow:
+        for planet, cs in enumerate(systems):
+            seen = []
+
+            def rec_sampler(lon, lat, seen=seen):
+                seen.append((np.array(lon, dtype=np.float64), np.array(lat, dtype=np.float64)))
+                return np.zeros(np.shape(lon), dtype=np.float32)
+            d0 = str(common.workdir() / f"c05_l0_{planet}")
+            shutil.rmtree(d0, ignore_errors=True)
+            try:
+                with contextlib.redirect_stdout(_io.StringIO()):
+                    T.sample_layer(PyramidIO(d0, default_format="npy"), rec_sampler, 0, coordsys=cs, parallel=1)
+            except Exception as e:  # noqa
+                fails.append((f"sample_layer at depth 0 raised {e!r}", dict(route="level0-grid", planet=bool(planet))))
+            shutil.rmtree(d0, ignore_errors=True)
+            if len(seen) == 1 and seen[0][0].shape == (256, 256):
+                lon, lat = seen[0]
+                px = special + [(rng.randrange(256), rng.randrange(256)) for _ in range(20 if quick else 200)]
+                w, arg = 0.0, None
+                for (i, j) in px:
+                    c = centre_of(T, T.create_single_tile(Pos(8, j, i), cs))
+                    e = TT.chord((float(lon[i, j]), float(lat[i, j])), (float(c[0]), float(c[1])))
+                    if e > w:
+                        w, arg = e, (i, j)
+                n_route += len(px)
+                if w > 1e-12:
+                    fails.append((f"pixel {arg} of the level-0 tile handed to the sampler is {w:.3g} (chord) away from the centre "
+                                  f"of tile (8, {arg[1]}, {arg[0]})", dict(route="level0-grid", planet=bool(planet), pixel=list(arg))))
+            elif not any(c.get("route") == "level0-grid" for _w, c in fails):
+                fails.append((f"sample_layer at depth 0 called the sampler {len(seen)} times", dict(route="level0-grid", planet=bool(planet))))
+            # leaves delivered by (sub-)pyramids of this system
+            for apex in (None, (1, rng.randrange(2), rng.randrange(2)), (2, rng.randrange(4), rng.randrange(4))):
+                pyr = Pyramid.new_toast(2, coordsys=cs)
+                if apex is not None:
+                    pyr = pyr.subpyramid(Pos(*apex))
+                got = []
+                with contextlib.redirect_stdout(_io.StringIO()):
+                    pyr.visit_leaves(lambda pos, tile, got=got: got.append((pos, tile)), parallel=1)
+                for pos, tile in rng.sample(got, min(len(got), 3)):
+                    lon, lat = T.toast_tile_get_coords(tile)
+                    px = [(0, 0), (255, 255), (rng.randrange(256), rng.randrange(256))]
+                    tt = T.Tile(Pos(*pos), tile.corners, tile.increasing)
+                    w, arg = grid_vs_centres(T, Pos, cs, tt, 8, lon, lat, px)
+                    n_route += len(px)
+                    if w > 1e-12:
+                        fails.append((f"pixel {arg} of leaf {tuple(pos)} delivered by a {'planetary' if planet else 'astronomical'} pyramid "
+                                      f"(apex {apex}) is {w:.3g} (chord) away from the centre of the tile 8 levels deeper",
+                                      dict(route="pyramid-leaf-grid", planet=bool(planet), pos=list(pos), apex=apex)))
+                        break
+    numeric["sampler_route_pixels"] = n_route
+
     # ---- verdicts
     for i, code in sorted(bad.items()):
         V.disagreement("ToastTerm.v ~ implementation: " + REL.get(code, str(code)), meta[i], "model value (vm_compute)",
